@@ -359,7 +359,7 @@ type handlerTransport struct{ h http.Handler }
 
 func (t handlerTransport) RoundTrip(r *http.Request) (*http.Response, error) {
 	rec := httptest.NewRecorder()
-	t.h.ServeHTTP(rec, r)
+	t.h.ServeHTTP(rec, r.WithContext(context.WithoutCancel(r.Context()))) // the provider's request context is its own
 	return rec.Result(), nil
 }
 
